@@ -295,6 +295,64 @@ theorem locatePre_shift (P : Params) (hP : P.preprocess = true) (content : Find.
     exact locateTail_shift P _ [H₁, W₁] [H₂, W₂] _ _ _ _ raw₁ raw₂ he₁ he₂ hraw
       (by simp [convertToInt_eq, hsz₁]) (by simp [convertToInt_eq, hs₂]) hpct hm₁ hm₂ hc₁ hc₂
 
+/-- **bandpass_blank_far_axes.**  `bandpass_blank_far` along BOTH axes, in terms of the reach
+`halo` of the filter: a pixel of the filtered canvas at least `halo` pixels above / left of the
+content, or `halo` pixels beyond its last row / column, is exactly 0. -/
+theorem bandpass_blank_far_axes {h w oy ox H W : Nat} {content big : Array Rat}
+    (e : IsEmbedQ h w content oy ox H W big)
+    (py : 1 ≤ oy ∧ oy + h + 1 ≤ H) (pxx : 1 ≤ ox ∧ ox + w + 1 ≤ W)
+    (s0 s1 : Rat) (k0 k1 : Array Rat) (l0 l1 : Int) (thr : Option Rat) (out : Array Rat)
+    (hb : bandpass [H, W] big [s0, s1] [k0, k1] [l0, l1] thr = .ok out) {r c : Nat}
+    (hr : r < H) (hc : c < W)
+    (hfar : (r : Int) - oy ≤ -(halo s0 k0 l0 : Int) ∨ (h : Int) + halo s0 k0 l0 ≤ (r : Int) - oy ∨
+            (c : Int) - ox ≤ -(halo s1 k1 l1 : Int) ∨ (w : Int) + halo s1 k1 l1 ≤ (c : Int) - ox) :
+    px W out r c = 0 := by
+  rw [bandpass_embed_pixel e py pxx s0 s1 k0 k1 l0 l1 thr out hb hr hc]
+  exact bpZ_far h w content s0 s1 k0 k1 l0 l1 thr _ _ hfar
+
+/-- **locateModel_shift.**  The shift clause of the property for the whole modelled pipeline
+`locateModel` (bandpass → convert_to_int → grey_dilation → refine_com), 2-D, `preprocess` on or off:
+`hy`, `hx` are the reach of the filter (`halo`, when preprocessing) or 0.  See `locatePre_shift` /
+`locateNoPre_shift` (the latter in any dimension) for the two branches. -/
+theorem locateModel_shift (P : Params) (content : Find.Image) (h w : Nat)
+    (hsh : content.shape = [h, w]) (H₁ W₁ H₂ W₂ oy₁ ox₁ oy₂ ox₂ : Nat) (raw₁ raw₂ : Array Nat)
+    (h₁ : IsEmbed content [oy₁, ox₁] ⟨[H₁, W₁], raw₁⟩) (h₂ : IsEmbed content [oy₂, ox₂] ⟨[H₂, W₂], raw₂⟩)
+    (hs₁ : raw₁.size = H₁ * W₁) (hs₂ : raw₂.size = H₂ * W₂)
+    (s0 s1 : Rat) (k0 k1 : Array Rat) (l0 l1 : Int)
+    (hpar : P.preprocess = true → P.lshort = [s0, s1] ∧ P.kernels = [k0, k1] ∧ P.llong = [l0, l1])
+    (hpct : 0 ≤ P.pct) (hy hx : Nat)
+    (hhy : hy = if P.preprocess then halo s0 k0 l0 else 0)
+    (hhx : hx = if P.preprocess then halo s1 k1 l1 else 0)
+    (hh₁ : padOK [H₁, W₁] [oy₁, ox₁] [h, w] [hy, hx] = true)
+    (hh₂ : padOK [H₂, W₂] [oy₂, ox₂] [h, w] [hy, hx] = true)
+    (hm₁ : padOK [H₁, W₁] [oy₁ - hy, ox₁ - hx] [h + 2 * hy, w + 2 * hx] P.margin = true)
+    (hm₂ : padOK [H₂, W₂] [oy₂ - hy, ox₂ - hx] [h + 2 * hy, w + 2 * hx] P.margin = true)
+    (hc₁ : padOK [H₁, W₁] [oy₁ - hy, ox₁ - hx] [h + 2 * hy, w + 2 * hx]
+      (P.radius.map (· + fuelOf P.maxIter)) = true)
+    (hc₂ : padOK [H₂, W₂] [oy₂ - hy, ox₂ - hx] [h + 2 * hy, w + 2 * hx]
+      (P.radius.map (· + fuelOf P.maxIter)) = true) :
+    locateModel P [H₂, W₂] raw₂ =
+      (locateModel P [H₁, W₁] raw₁).map
+        (List.map (moveMeasure 2 (disp 2 [oy₁, ox₁] [oy₂, ox₂]))) := by
+  cases hP : P.preprocess with
+  | true =>
+    obtain ⟨hls, hks, hll⟩ := hpar hP
+    rw [hP] at hhy hhx
+    simp only [if_true] at hhy hhx
+    subst hhy; subst hhx
+    exact locatePre_shift P hP content h w hsh H₁ W₁ H₂ W₂ oy₁ ox₁ oy₂ ox₂ raw₁ raw₂ h₁ h₂ hs₁ hs₂
+      s0 s1 k0 k1 l0 l1 hls hks hll hpct hh₁ hh₂ hm₁ hm₂ hc₁ hc₂
+  | false =>
+    rw [hP] at hhy hhx
+    simp only [Bool.false_eq_true, if_false] at hhy hhx
+    subst hhy; subst hhx
+    simp only [Nat.sub_zero, Nat.mul_zero, Nat.add_zero] at hm₁ hm₂ hc₁ hc₂
+    rw [← hsh] at hm₁ hm₂ hc₁ hc₂
+    have := locateNoPre_shift P hP content [H₁, W₁] [H₂, W₂] [oy₁, ox₁] [oy₂, ox₂] raw₁ raw₂ h₁ h₂
+      (by simpa using hs₁) (by simpa using hs₂) hpct hm₁ hm₂ hc₁ hc₂
+    rw [hsh] at this
+    exact this
+
 end pre
 
 /-! ## the `np.where` order of the maxima under a shift -/
